@@ -354,7 +354,17 @@ impl Session<'_> {
                 Ok(None)
             }
             DoesNotExist => Ok(None),
-            Unchanged { state, .. } | Changed { state } => Ok(state.remove(key)),
+            Unchanged { state, .. } => {
+                let removed = state.remove(key);
+                if removed.is_some() {
+                    // The state has been modified: it must be marked as such,
+                    // otherwise the removal is never persisted to the store.
+                    let state = std::mem::take(state);
+                    self.server_state = new_cell_with(Some(ServerState::Changed { state }));
+                }
+                Ok(removed)
+            }
+            Changed { state } => Ok(state.remove(key)),
         }
     }
 
